@@ -42,6 +42,7 @@ def check(ctx):
     rpc_auth(ctx, P, cg)
     size_rungs(ctx, P)
     running_counters(ctx, P, cg)
+    read_request_buffer_blind(ctx, P)
 
 
 def running_counters(ctx, P, cg):
@@ -288,3 +289,33 @@ def size_rungs(ctx, P):
            "exceed the remaining allowance, before any byte of that chunk is stored (same loop, earlier position)", ok, lb.where, detail)
     cl = [e for e in big if any(CLOK.fullmatch(k) for k in F.atoms(e.own_formula(set())))]
     ctx.ob("LoadBody/content-length-rung", "LADDER", "a Content-Length above MAX_BODY_SIZE throws ContentTooLargeError", len(cl) >= 1, lb.where)
+
+
+# ------------------------------------------------------------------------------------------------
+def read_request_buffer_blind(ctx, P):
+    """How much of the byte stream happens to be buffered when ReadRequest runs depends on how the stream was delivered, so it
+    must not decide anything there: the only test ReadRequest itself makes on the receive buffer is `empty()` (nothing to parse);
+    every size limit is applied by the parsing helpers to what they consume (header section, body length)."""
+    qs = [q for q in P.funcs if q.endswith("HTTPRemoteClient::ReadRequest")]
+    if len(qs) != 1:
+        raise AnalysisBroken("HTTPRemoteClient::ReadRequest not found")
+    f = ctx.used(P.fn(qs[0]))
+    sub = naming(f, P)
+    bad = []
+    n = 0
+    for st in stmts(f.body):
+        c = st.get("c")
+        if st.get("k") in ("if", "while", "for", "do", "switch") and is_expr(c):
+            for k in F.atoms(F.to_formula(c, sub)):
+                if "m_recv_buffer" in k:
+                    n += 1
+                    if not re.fullmatch(r"(this->)?m_recv_buffer\.empty\(\)", k):
+                        bad.append((st.get("l"), k[:120]))
+    ctx.floor("ReadRequest tests of the receive buffer", n, 1)
+    ctx.ob("ReadRequest/buffer-size-blind", "PROVENANCE", "ReadRequest decides nothing on the amount of buffered data: its only own test of the receive buffer is empty() "
+           "(size limits are applied by LoadControlData/LoadHeaders/LoadBody to what they parse)", not bad, f.where, {"tests": bad} if bad else None)
+    calls = [s_ for s_ in sites(f, lambda e: e[0] in ("mcall", "vcall") and str(e[1]).rsplit("::", 1)[-1] in ("LoadControlData", "LoadHeaders", "LoadBody"), P)]
+    same = {F.key(call_args(s_.expr)[0]) for s_ in calls if call_args(s_.expr)}
+    ctx.ob("ReadRequest/one-reader", "PROVENANCE", "the three parsing stages read through one LineReader over the receive buffer, and exactly what it consumed is erased afterwards",
+           len(calls) == 3 and len(same) == 1 and bool(sites(f, lambda e: e[0] in ("mcall", "vcall") and str(e[1]).endswith("::erase") and "m_recv_buffer" in show(e) and "Consumed" in show(e), P)),
+           f.where, {"readers": sorted(same)})
